@@ -110,7 +110,7 @@ def run(ctx):
     ctx.cov["disagreements_by_kind"] = budget
     ctx.assumptions = [
         "pools of 0..14 nodes, definitions of 0..6 lines x 1..3 conditions x 0..3 values, generated (seeded); "
-        "85% of the definitions reach the code through the real config parser, the rest are built as structs "
+        "about two thirds of the definitions reach the code through the real config parser, the rest are built as structs "
         "(values the config syntax cannot express, odd policy types, length-mismatch guard)",
     ]
     return ctx.finish(
